@@ -178,8 +178,15 @@ def get_comment(
             # We don't add this space to the generated file.
             lines = [line[1:] if line and line[0] == " " else line for line in lines]
 
+            # Keep the comment text from ending or corrupting the docstring literal
+            lines = [
+                line.replace("\\", "\\\\").replace('"""', '\\"\\"\\"') for line in lines
+            ]
+
             # This is a field, message, enum, service, or method
             if len(lines) == 1 and len(lines[0]) < 79 - indent - 6:
+                if lines[0].endswith('"'):
+                    lines[0] = lines[0][:-1] + '\\"'
                 return f'{pad}"""{lines[0]}"""'
             else:
                 joined = f"\n{pad}".join(lines)
